@@ -40,6 +40,24 @@ def oracle(script: dict, run: Any) -> List[Violation]:
     failures = 0
     budget_hit = None
     shutdown_at = None
+    # a failure restart is for a worker that exited unexpectedly - not for one the manager itself has terminated
+    injected = {x[4]["idx"] for x in ev if x[3] == "inject_die"}
+    cur_idx: Dict[int, int] = {}
+    term_by_mgr = set()
+    for e in ev:
+        if e[3] == "start":
+            try:
+                cur_idx[int(e[4]["name"].split("-")[1])] = e[4]["idx"]
+            except (ValueError, IndexError):
+                pass
+        elif e[3] == "terminate" and e[4].get("state") == "terminating":
+            term_by_mgr.add(e[4]["idx"])
+        elif e[3] == "put" and e[4]["item"]["type"] == "ReloadOneAction" and not e[4]["item"]["reload_all"] and e[4]["phase"] == "scan":
+            idx = cur_idx.get(e[4]["item"]["slot"])
+            if idx is not None and idx in term_by_mgr and idx not in injected:
+                out.append(Violation("C18/manager-terminated-worker-counted-as-failure", f"a failure restart was queued at tick {e[1]} for slot {e[4]['item']['slot']} whose "
+                                     f"process {idx} did not exit unexpectedly: the manager itself had terminated it"))
+                return out
     for e in ev:
         if e[3] == "put" and e[4]["item"]["type"] == "ReloadOneAction" and not e[4]["item"]["reload_all"]:
             if e[4]["in_handler"] or e[4]["phase"] != "scan":
